@@ -138,6 +138,10 @@ impl FileSystem for OverlayFS {
 
     fn create_file(&self, path: &str) -> VfsResult<Box<dyn SeekAndWrite + Send>> {
         self.ensure_has_parent(path)?;
+        if self.exists(path)? && self.metadata(path)?.file_type == VfsFileType::Directory {
+            // do not shadow a (possibly lower-layer) directory with a file
+            return Err(VfsErrorKind::Other("Path is a directory".into()).into());
+        }
         let result = self.write_path(path)?.create_file()?;
         let whiteout_path = self.whiteout_path(path)?;
         if whiteout_path.exists()? {
